@@ -7,6 +7,7 @@
   NUL inside the allocation" clause.  "No fault" (= no signed overflow, no access outside the
   allocation, no read of uninitialised bytes below bpos) is the `∃ r, … = .ok r` in every statement.
 -/
+import JsonC.Lemmas.TranslatedCtor
 import JsonC.Lemmas.Printbuf
 import JsonC.Lemmas.TranslatedPb
 
